@@ -168,6 +168,10 @@ func parseH265VpsSpsPps(s string, video *codec.VideoMeta) {
 		advance, token, continueScan = scan.Semicolon.Scan(advance)
 		name, value, ok := scan.EqualPair.Scan(token)
 		if ok {
+			if name != "sprop-vps" && name != "sprop-sps" && name != "sprop-pps" {
+				// other fmtp parameters (RFC 7798 7.1) may follow; their values are not base64
+				continue
+			}
 			var ps []byte
 			var err error
 			if ps, err = base64.StdEncoding.DecodeString(value); err != nil {
